@@ -250,6 +250,7 @@ package j5convert
 //@   requires fileOK(ww) && service != nil && service.desc != nil && node != nil && node.Schema != nil
 //@   requires forall i int :: 0 <= i && i < len(node.Schema.Request.Properties) ==> node.Schema.Request.Properties[i] != nil
 //@   let rule = extof(annotations.E_Http, service.desc.Method[old(len(service.desc.Method))].Options)
+//@   assert at return#2 rawimport: node.OutputType == "google.api.HttpBody" ==> imported(ww, "google/api/httpbody.proto")
 //@   assert at return#2 path: rule != nil && rulePath(rule) == httpPath(node.ResolvedPath)
 //@   assert at return#2 verb: (node.Schema.HttpMethod == client_j5pb.HTTPMethod_GET <==> typeis(rule.Pattern, *annotations.HttpRule_Get))
 //@   |   && (node.Schema.HttpMethod == client_j5pb.HTTPMethod_POST <==> typeis(rule.Pattern, *annotations.HttpRule_Post))
@@ -267,6 +268,7 @@ package j5convert
 //@   loop 0 invariant forall j int {reqPathParts[j]} :: 0 <= j && j < $iter ==> reqPathParts[j] == segOut(splitAt(node.ResolvedPath, "/", j))
 //@   loop 0 invariant forall j int {reqPathParts[j]} :: $iter <= j && j < len(reqPathParts) ==> reqPathParts[j] == splitAt(node.ResolvedPath, "/", j)
 //@   loop 0 invariant node.ResolvedPath == old(node.ResolvedPath) && node.Schema == old(node.Schema)
+//@   loop 0 invariant fileOK(ww) && (node.OutputType == "google.api.HttpBody" ==> imported(ww, "google/api/httpbody.proto"))
 
 // ---- properties (C02, C07, C13) --------------------------------------------------------------------
 // A property becomes a field named snake(name) with JSON name name and the number handed down by the
